@@ -58,16 +58,20 @@ package main
 //	return Point{X: xA / A, Y: yA / A}                          ↦ pure (CAcc.finish acc)
 //	distPointToSegment's guard `if m := E; (m >= 0x1p500 || (m <= 0x1p-500 && m > 0)) && !math.IsInf(m, 0) { _, e := math.Frexp(m);
 //	k := math.Ldexp(1, e-1); return k * distPointToSegment(a, b, c) }`  ↦ match RNum.rescale E with | some k => k * core a b c | none => core …
-//	if … := centroidScale(…); … { …; return … } at the head     ↦ cut off: the function `<name>_core` is the code below this range guard
+//	centroidAxisScale's body (compared as text)                 ↦ pure (axisScale m)      (Frexp/Ldexp over Rat = pow2Floor)
+//	in the range guard `if kx, ky := centroidScale(…); … { … }` at the head of Polygon.Centroid / MultiPolygon.Centroid:
+//	  x.Centroid() (the function itself, on the rescaled copy)  ↦ (← <name>_core x): the loops below the guard
+//	  return Point{X: c.X * kx, Y: c.Y * ky}                    ↦ pure (unscale kx ky c)
+//	  the rest of the guard is translated statement by statement; op.Centroid's inline guard is cut off (not regenerated)
 
 import (
 	"fmt"
 	"go/ast"
 	"go/parser"
+	"go/printer"
 	"go/token"
 	"os"
 	"path/filepath"
-	"go/printer"
 	"strconv"
 	"strings"
 )
@@ -93,6 +97,9 @@ var fns = []fnInfo{
 	{"area.go", "", "signedarea", "signedarea", false, ""},
 	{"op/properties.go", "", "area", "op_area", false, ""},
 	{"op/properties.go", "", "Centroid", "op_Centroid", false, "opcentroid"},
+	{"area.go", "", "centroidAxisScale", "centroidAxisScale", false, "axisscale"},
+	{"area.go", "", "centroidScale", "centroidScale", false, ""},
+	{"area.go", "Polygon", "scaled", "polygon_scaled", false, ""},
 	{"area.go", "Polygon", "Centroid", "polygon_Centroid", false, "centroid"},
 	{"area.go", "", "area", "area", false, ""},
 	{"area.go", "Polygon", "Area", "polygon_Area", false, ""},
@@ -128,6 +135,7 @@ type tr struct {
 	frozen   map[string]bool   // loop counters and variables a loop bound mentions: may not be assigned
 	centroid bool              // the accumulator pattern of the centroid loops is active (acc stands for A, xA, yA)
 	loop     int               // 0: function level, 1: loop body / branch without exits, 2: body of a loop with return/continue
+	guard    bool              // translating the range guard of a centroid function (see translate)
 	ctlNext  string            // in a loop body of kind 2: what `continue` and the end of the body yield
 }
 
@@ -171,6 +179,8 @@ func (t *tr) leanType(tn string) string {
 		return "Side"
 	case "centroid":
 		return "(FV × FV)"
+	case "float64,float64":
+		return "(" + t.num() + " × " + t.num() + ")"
 	case "CAcc":
 		return "CAcc"
 	}
@@ -257,6 +267,8 @@ func lookupFn(pkg, recv, name string) *fnInfo {
 
 // the constants of type WithinStatus
 var withinConst = map[string]string{"Outside": "Side.outside", "Inside": "Side.inside", "OnEdge": "Side.onEdge"}
+
+var variadic = map[string]bool{} // lean name -> its last parameter is variadic
 
 var resultType = map[string]string{} // lean name -> Go result type, filled while translating
 
@@ -350,6 +362,9 @@ func (t *tr) typeOf(e ast.Expr) string {
 			}
 		}
 		if sel, ok := x.Fun.(*ast.SelectorExpr); ok {
+			if t.guard && sel.Sel.Name == t.fi.name && t.typeOf(sel.X) == t.fi.recv && len(x.Args) == 0 {
+				return "centroid"
+			}
 			if fi := lookupFn(t.fi.pkg(), t.typeOf(sel.X), sel.Sel.Name); fi != nil {
 				return resultType[fi.lean]
 			}
@@ -594,7 +609,14 @@ func (t *tr) callFn(fi *fnInfo, args []string) string {
 func (t *tr) call(x *ast.CallExpr) string {
 	tn := typeName(x.Fun)
 	if x.Ellipsis != token.NoPos && tn != "append" {
-		xfail("variadic call")
+		id, ok := x.Fun.(*ast.Ident)
+		var fi *fnInfo
+		if ok {
+			fi = lookupFn(t.fi.pkg(), "", id.Name)
+		}
+		if fi == nil || !variadic[fi.lean] || len(x.Args) != 1 {
+			xfail("variadic call")
+		}
 	}
 	if _, shadow := t.vars[tn]; !shadow && len(x.Args) == 1 {
 		// conversions
@@ -713,11 +735,19 @@ func (t *tr) call(x *ast.CallExpr) string {
 		}
 		if fi := lookupFn(t.fi.pkg(), "", f.Name); fi != nil {
 			argsOf(fi)
+			if variadic[fi.lean] && x.Ellipsis == token.NoPos {
+				// f(a, b) with f(xs ...T): the arguments are the elements of xs (only functions whose single parameter is variadic)
+				args = []string{"[" + strings.Join(args, ", ") + "]"}
+			}
 			return t.callFn(fi, args)
 		}
 		xfail("call of %s", f.Name)
 	case *ast.SelectorExpr:
 		rt := t.typeOf(f.X)
+		if t.guard && f.Sel.Name == t.fi.name && rt == t.fi.recv && len(x.Args) == 0 {
+			// the call of the function itself on the rescaled copy: the guard does not fire again, the loops below it run
+			return "(← " + t.fi.lean + "_core " + t.expr(f.X, "") + ")"
+		}
 		if fi := lookupFn(t.fi.pkg(), rt, f.Sel.Name); fi != nil {
 			args = append(args, t.expr(f.X, ""))
 			argsOf(fi)
@@ -962,6 +992,40 @@ func opAssign(s ast.Stmt, tok token.Token, lhs string) ast.Expr {
 	return a.Rhs[0]
 }
 
+// Point{X: c.X * kx, Y: c.Y * ky} with c a centroid (FV × FV) and kx, ky float64 variables
+func (t *tr) isUnscale(e ast.Expr) (c, kx, ky string, ok bool) {
+	lit, isLit := e.(*ast.CompositeLit)
+	if !isLit || typeName(lit.Type) != "Point" || len(lit.Elts) != 2 {
+		return
+	}
+	field := func(e ast.Expr, key string) (string, string, bool) {
+		kv, ok := e.(*ast.KeyValueExpr)
+		if !ok || !isIdent(kv.Key, key) {
+			return "", "", false
+		}
+		b, ok := kv.Value.(*ast.BinaryExpr)
+		if !ok || b.Op != token.MUL {
+			return "", "", false
+		}
+		s, ok := b.X.(*ast.SelectorExpr)
+		k, ok2 := b.Y.(*ast.Ident)
+		if !ok || !ok2 || s.Sel.Name != key {
+			return "", "", false
+		}
+		cid, ok := s.X.(*ast.Ident)
+		if !ok || t.vars[cid.Name] != "centroid" || t.vars[k.Name] != "float64" {
+			return "", "", false
+		}
+		return cid.Name, k.Name, true
+	}
+	c1, kx, ok1 := field(lit.Elts[0], "X")
+	c2, ky, ok2 := field(lit.Elts[1], "Y")
+	if !ok1 || !ok2 || c1 != c2 {
+		return
+	}
+	return c1, kx, ky, true
+}
+
 // `6 * d` with d an identifier; returns d
 func sixTimes(e ast.Expr) string {
 	b, ok := e.(*ast.BinaryExpr)
@@ -1144,7 +1208,20 @@ func (t *tr) block(ss []ast.Stmt, ind string, tail string, out *strings.Builder)
 			t.forStmt(x, ind, out)
 		case *ast.IfStmt:
 			if x.Init != nil {
-				xfail("if with init")
+				// if v := e; c { … }: v is declared first (refused when it would hide a variable of the enclosing scope)
+				in, ok := x.Init.(*ast.AssignStmt)
+				if !ok || in.Tok != token.DEFINE || t.loop != 0 {
+					xfail("if with this init")
+				}
+				for _, l := range in.Lhs {
+					if id, ok := l.(*ast.Ident); !ok {
+						xfail("if with this init")
+					} else if _, hides := t.vars[id.Name]; hides {
+						xfail("if init redeclares %s", id.Name)
+					}
+				}
+				t.assign(in, ind, out)
+				x = &ast.IfStmt{Cond: x.Cond, Body: x.Body, Else: x.Else}
 			}
 			if len(x.Body.List) == 0 {
 				xfail("empty if body")
@@ -1205,11 +1282,23 @@ func (t *tr) block(ss []ast.Stmt, ind string, tail string, out *strings.Builder)
 			if t.loop == 1 {
 				xfail("return inside a loop")
 			}
+			if i != len(ss)-1 {
+				xfail("statements after return")
+			}
+			if resultType[t.fi.lean] == "float64,float64" && len(x.Results) == 2 && t.loop == 0 {
+				fmt.Fprintf(out, "%spure (%s, %s)\n", ind, t.expr(x.Results[0], "float64"), t.expr(x.Results[1], "float64"))
+				return
+			}
 			if len(x.Results) != 1 {
 				xfail("return with %d results", len(x.Results))
 			}
-			if i != len(ss)-1 {
-				xfail("statements after return")
+			if t.guard {
+				// return Point{X: c.X * kx, Y: c.Y * ky} with c the centroid of the rescaled copy
+				if c, kx, ky, ok := t.isUnscale(x.Results[0]); ok && t.loop == 0 {
+					fmt.Fprintf(out, "%spure (unscale %s %s %s)\n", ind, kx, ky, c)
+					return
+				}
+				xfail("the range guard returns something else than Point{X: c.X * kx, Y: c.Y * ky}")
 			}
 			want := resultType[t.fi.lean]
 			if got := t.typeOf(x.Results[0]); got != "" && got != want && elemType[got] != elemType[want] {
@@ -1283,6 +1372,24 @@ func (t *tr) acc(st []string) []string {
 }
 
 func (t *tr) assign(x *ast.AssignStmt, ind string, out *strings.Builder) {
+	if len(x.Lhs) == 2 && len(x.Rhs) == 1 && x.Tok == token.DEFINE && t.typeOf(x.Rhs[0]) == "float64,float64" {
+		// a, b := f() with f returning two float64
+		a, ok1 := x.Lhs[0].(*ast.Ident)
+		b, ok2 := x.Lhs[1].(*ast.Ident)
+		if !ok1 || !ok2 || a.Name == "_" || b.Name == "_" || a.Name == b.Name {
+			xfail("targets of a two-valued :=")
+		}
+		for _, n := range []string{a.Name, b.Name} {
+			if t.centroid && (n == "A" || n == "xA" || n == "yA" || n == "acc") {
+				xfail("redeclaration of %s", n)
+			}
+		}
+		fmt.Fprintf(out, "%slet st__ := %s\n%slet %s := st__.1\n%slet %s := st__.2\n", ind, t.expr(x.Rhs[0], ""), ind, a.Name, ind, b.Name)
+		t.vars[a.Name], t.vars[b.Name] = "float64", "float64"
+		delete(t.frozen, a.Name)
+		delete(t.frozen, b.Name)
+		return
+	}
 	if len(x.Lhs) != len(x.Rhs) {
 		xfail("assignment with %d targets and %d values", len(x.Lhs), len(x.Rhs))
 	}
@@ -1732,17 +1839,49 @@ func translate(fi fnInfo, fd *ast.FuncDecl) (text string) {
 		add(recvName, rtn)
 	}
 	for _, p := range fd.Type.Params.List {
-		if _, ok := p.Type.(*ast.Ellipsis); ok {
-			xfail("variadic parameter")
+		if el, ok := p.Type.(*ast.Ellipsis); ok {
+			if fd.Recv != nil || len(fd.Type.Params.List) != 1 || len(p.Names) != 1 {
+				xfail("variadic parameter that is not the only one")
+			}
+			variadic[fi.lean] = true
+			add(p.Names[0].Name, "[]"+typeName(el.Elt))
+			continue
 		}
 		for _, n := range p.Names {
 			add(n.Name, typeName(p.Type))
 		}
 	}
-	if fd.Type.Results == nil || len(fd.Type.Results.List) != 1 || len(fd.Type.Results.List[0].Names) != 0 {
+	if fd.Type.Results == nil || len(fd.Type.Results.List) != 1 {
 		xfail("result list")
 	}
 	rt := typeName(fd.Type.Results.List[0].Type)
+	switch rn := fd.Type.Results.List[0].Names; {
+	case len(rn) == 2 && rt == "float64":
+		// (kx, ky float64): two results; the named result variables themselves are not translated (their use is refused
+		// as an unknown identifier)
+		for _, n := range rn {
+			if _, clash := t.vars[n.Name]; clash {
+				xfail("result %s", n.Name)
+			}
+		}
+		rt = "float64,float64"
+	case len(rn) != 0:
+		xfail("named results")
+	}
+	if fi.ret == "axisscale" {
+		// centroidAxisScale: one statement group, compared as text; `Frexp`/`Ldexp` over Rat is the model's pow2Floor
+		want := []string{"if (m >= 0x1p300 || (m <= 0x1p-300 && m > 0)) && !math.IsInf(m, 0) {\n\t_, e := math.Frexp(m)\n\treturn math.Ldexp(1, e-1)\n}", "return 1"}
+		if len(params) != 1 || t.vars["m"] != "float64" || rt != "float64" || len(fd.Body.List) != len(want) {
+			xfail("signature or length of the body")
+		}
+		for i, w := range want {
+			if got := srcOf(fd.Body.List[i]); got != w {
+				xfail("statement %d is `%s`", i+1, got)
+			}
+		}
+		resultType[fi.lean] = rt
+		return fmt.Sprintf("/-- %s: %s (one statement group, see extract.go) -/\ndef %s (m : Rat) : Go.M Rat := do\n  pure (axisScale m)\n", fi.file, fi.name, fi.lean)
+	}
 	if fi.ret == "optfloat" {
 		if rt != "float64" {
 			xfail("result type %s", rt)
@@ -1783,16 +1922,22 @@ func translate(fi fnInfo, fd *ast.FuncDecl) (text string) {
 		if len(stmts) == 0 || !isCentroidGuard(stmts[0]) {
 			xfail("does not begin with a range guard `if … := centroidScale(…); … { …; return … }`")
 		}
+		saved := t.save()
 		t.block(stmts[1:], "  ", "", &body)
-		return fmt.Sprintf("/-- %s: %s below its range guard (the guard is not regenerated) -/\ndef %s_core %s%s : Go.M %s := do\n%s", fi.file, rn, fi.lean, hdr, strings.Join(params, " "), t.leanType(rt), body.String())
+		core := fmt.Sprintf("/-- %s: %s below its range guard -/\ndef %s_core %s%s : Go.M %s := do\n%s\n", fi.file, rn, fi.lean, hdr, strings.Join(params, " "), t.leanType(rt), body.String())
+		// the function itself: the guard, then the loops
+		t.vars, t.centroid, t.guard = saved, false, true
+		var full strings.Builder
+		t.block(stmts[:1], "  ", "pure (← "+fi.lean+"_core "+recvName+")", &full)
+		return core + fmt.Sprintf("/-- %s: %s (its call of itself inside the range guard is the function below the guard) -/\ndef %s %s%s : Go.M %s := do\n%s", fi.file, rn, fi.lean, hdr, strings.Join(params, " "), t.leanType(rt), full.String())
 	}
 	t.block(stmts, "  ", "", &body)
 	return fmt.Sprintf("/-- %s: %s -/\ndef %s %s%s : Go.M %s := do\n%s", fi.file, rn, fi.lean, hdr, strings.Join(params, " "), t.leanType(rt), body.String())
 }
 
 const genHeader = `import GeomV.C03.GenLib
-/-! GENERATED by ` + "`harness/cmd/c03 extract`" + ` from area.go, bounds.go, linestring.go, multilinestring.go, simplify.go,
-point.go, op/properties.go of the tree under test.  Do not edit; regenerated by every ` + "`bin/check C03`" + ` run
+/-! GENERATED by ` + "`harness/cmd/c03 extract`" + ` from area.go, multipolygon.go, bounds.go, linestring.go, multilinestring.go,
+simplify.go, point.go, op/properties.go of the tree under test.  Do not edit; regenerated by every ` + "`bin/check C03`" + ` run
 (checks/C03.py pregen).  Tie lemmas: Ties.lean. -/
 set_option linter.unusedVariables false
 namespace GeomV.C03.Gen
